@@ -5,5 +5,5 @@ From Coq Require Import NArith List Bool Extraction ExtrOcamlBasic.
 From Q.Spec Require Import Entries Image.
 Extraction Language OCaml.
 Extraction "../driver/model.ml"
-  parse_hdr hdr_supported validb safeb leaked undercounted guest_mapping guest_entry stored refs
+  parse_hdr hdr_features_ok hdr_supported validb safeb leaked undercounted guest_mapping guest_entry stored refs
   ref_list covered_nonzero overcounted tables_ok refcounts_exact refcounts_safe guest_clusters.
